@@ -195,9 +195,12 @@ fn pt_pass_coq(k: usize, kt: f64, tol: f64, p: &PtPass, notes: &mut Vec<String>)
         let df = dv + (1.0 / x - 1.0 / p.pold) * kt;
         let ddf = -kt / (x * x);
         let nprime = (f * ddf / (df * df)).abs();
-        let rnext = 2.0 * nprime * radius + 2e-14 * p.q[j + 1].abs() + 4e-16 * (da.abs() + kt) / df.abs();
+        // round-off of the anchor (f64 mirror), from the magnitudes of the terms that cancel: in f = x dv + da + (ln(x/p_old) + 1 - x/p_old) kT
+        // and in the Newton update x - f/f' (a far-off estimate x >> x_new loses |x|/|x_new| digits)
+        let err_f = 4e-16 * ((x * dv).abs() + da.abs() + (frac.ln().abs() + 1.0 + frac.abs()) * kt);
+        let rnext = 2.0 * nprime * radius + 2e-14 * p.q[j + 1].abs() + 2.0 * err_f / df.abs() + 8e-16 * (x.abs() + (f / df).abs());
         // is the residual test decidable on the ball?
-        let funcert = 2.0 * df.abs() * radius + 1e-15 * (da.abs() + kt);
+        let funcert = 2.0 * df.abs() * radius + 2.0 * err_f;
         if !(funcert < 0.2 * (p.fabs[j] - p.ntol).abs()) || !(radius < 1e-3 * x.abs()) {
             notes.push(format!("pass {k}: inner residual test at iteration {j} too close to its threshold for the enclosure (|f|/ntol = {:e}) — chain not emitted", p.fabs[j] / p.ntol));
             return (s, goals);
